@@ -163,7 +163,8 @@ def segmentation_sweep(ctx):
                     ctx.case(("seg", code, curt, size, len(memo)))
                     tx = mk(code, auth, curt, size=size, signer=signer, via=via)
                     try:
-                        grams = tx.rend(memo, keys(signer)["vid"] if auth else None)
+                        # (every other size: the signer id is left to the sender's own .vid)
+                        grams = tx.rend(memo, keys(signer)["vid"] if auth and size % 2 else None)
                     except Exception as ex:
                         ctx.violation("rend() of a %d character memo with code %s, %s headers, gram size %d raised %s: %s" % (
                             len(memo), code, "binary" if curt else "base64", size, type(ex).__name__, ex),
